@@ -291,7 +291,7 @@ fn c09_resync_two_step() {
 /// Bounded history from `new()` through the public API only (sanity for the induction).
 #[kani::proof]
 #[kani::unwind(10)]
-//@ tier=thorough class=core cap=3600 bounds="N=4, new(), 2 chunks of 0..=4 symbolic bytes fed with the documented re-feed loop, every segment fits; results vs segment-by-segment isolated decoding (T=u8 payload pair)"
+//@ tier=thorough class=best cap=3600 bounds="N=4, new(), 2 chunks of 0..=4 symbolic bytes fed with the documented re-feed loop, every segment fits; results vs segment-by-segment isolated decoding (T=u8 payload pair)"
 fn c08_history_two_chunks() {
     const N: usize = 4;
     let mut acc = CobsAccumulator::<N>::new();
